@@ -18,6 +18,12 @@ NOT_APPLICABLE = {
 }
 
 CHECKS = {
+    "C04": {
+        "level_text": "Proof for the range assignment (all indices, counts, modes) and for the partition/history lemmas over the contracts (all clause lists, all histories); the lookup scan and the ordered arm of match_call_pattern are verified per list length up to a stated bound (bounded, reported separately).",
+        "design_ref": "DESIGN.md §4 C04",
+        "level_note": "Trusted: Verus/Z3, Kani/CBMC; harnesses needing a SharedState build the no_std+spin-lock feature set (Kani ICE on std::thread::current); the functions under contract contain no cfg.",
+        "technique": "function contracts: Kani contract harnesses (range assignment full-domain; scans bounded) + Verus induction lemmas over the contracts",
+    },
     "C03": {
         "level_text": "Proof, per function, for all inputs: CallCounter::verify's iff over all 2^64 x 2^64 x 3 (actual, minimum, exactness) [Kani, loop-free, complete]; expectation arithmetic and builder contracts for all values and all responder-list lengths [Verus]; lemma from the contracts to the three expectation shapes of the statement [Verus]. The per-method sum (FnMocker::verify) is bounded in the number of patterns and reported as bounded. Message text is not covered.",
         "design_ref": "DESIGN.md §4 C03",
